@@ -300,9 +300,8 @@ Section AcceptedLeaves.
     rewrite hd_skipn. exact Hx.
   Qed.
 
-  Hypothesis N : inner_nodup t.
-
-  (* ... and with repetition-free child lists no leaf is counted twice: a partition *)
+  (* the validator refuses a repeated child, so no leaf is counted twice: a partition *)
+  Let N : inner_nodup t := validate_inner_nodup t V.
   Lemma leaves_of_nodup k x : NoDup (leaves_of t k x).
   Proof.
     unfold leaves_of. apply leaves_from_nodup;
@@ -421,7 +420,7 @@ Definition child_level (parent : option (nat * node)) : nat :=
   match parent with None => 0%nat | Some (li, _) => S li end.
 
 Theorem leaf_pairs_exact t parent :
-  validate t = true -> wf t -> inner_nodup t ->
+  validate t = true -> wf t ->
   (forall li x, parent = Some (li, x) -> (S li < length t)%nat) ->
   NoDup (leaf_pairs t parent) /\
   forall a b,
@@ -430,7 +429,7 @@ Theorem leaf_pairs_exact t parent :
                           In a (leaves_of t (child_level parent) c) /\
                           In b (leaves_of t (child_level parent) c').
 Proof.
-  intros V W N Hp.
+  intros V W Hp. pose proof (validate_inner_nodup t V) as N.
   assert (G : leaf_pairs t parent = pairs_of (leaves_of t (child_level parent)) (children t parent) /\
               NoDup (children t parent)).
   { destruct parent as [[li x]|]; cbn [children child_level].
